@@ -1,3 +1,4 @@
+import Cctp.Spec.Toy
 import Cctp.Lemmas.Shapes
 import Cctp.Lemmas.Frame
 import Cctp.Props.C04
@@ -180,5 +181,11 @@ theorem burned_eq_sum (ext : Ext) (cfg : Cfg) (h : History) (w : World) :
     obtain ⟨f, m⟩ := fm
     rw [run_results_cons]
     simp only [totalBurnt, totalDeposited, burnt_step, ih]
+
+/-! non-vacuity: a concrete successful deposit (the hypothesis of `deposit_ok_calls` / `deposit_ledger`) and a concrete
+    successful send by an ordinary account (the hypothesis of `sender_is_submitter`) -/
+example : ∃ o, depositForBurn Toy.ext Toy.cfg Toy.st Toy.led Toy.alice (some 5) 0 (List.replicate 32 9) Toy.denom [] = .ok o :=
+  (Toy.isOk_iff _).mp (by decide +kernel)
+example : ∃ o, handle Toy.ext Toy.cfg Toy.st Toy.led Toy.send = .ok o := (Toy.isOk_iff _).mp (by decide +kernel)
 
 end Cctp.C05
